@@ -77,6 +77,17 @@ func H_C08_enqueue_stop() {
 		wg.Add(1)
 		go func() { defer wg.Done(); verifrt.MustFinish(); bw.Flush() }()
 	}
+	var stop2Invoked, stop2Returned atomic.Int64
+	if verifrt.Choose("secondStop", 2) == 1 {
+		wg.Add(1)
+		go func() {
+			defer wg.Done()
+			verifrt.MustFinish()
+			stop2Invoked.Store(int64(verifrt.Stamp()))
+			bw.StopBatchWriter()
+			stop2Returned.Store(int64(verifrt.Stamp()))
+		}()
+	}
 	verifrt.MustFinish()
 	if verifrt.Choose("stopAfterProducers", 2) == 1 {
 		wg.Wait()
@@ -89,15 +100,24 @@ func H_C08_enqueue_stop() {
 	// (again) so that the ghost state below is read at quiescence
 	bw.StopBatchWriter()
 	verifrt.Cover("done")
+	// with two Stop callers the statement is about the first invocation: an Enqueue after it may be refused
+	firstStop := stopInvoked.Load()
+	if s2 := stop2Invoked.Load(); s2 != 0 && s2 < firstStop {
+		firstStop = s2
+	}
 	for _, o := range objs {
-		before := o.enqReturns != 0 && int64(o.enqReturns) < stopInvoked.Load()
+		before := o.enqReturns != 0 && int64(o.enqReturns) < firstStop
 		if before {
 			verifrt.Cover("written")
-			verifrt.Assert(o.writes >= 1 && int64(o.lastDone) != 0, "an object whose Enqueue returned before StopBatchWriter was invoked was never passed to BatchWrite by the time Stop returned")
+			verifrt.Assert(o.writes >= 1, "an object whose Enqueue returned before StopBatchWriter was invoked was never passed to BatchWrite by the time Stop returned")
+			verifrt.Assert(int64(o.lastDone) != 0, "an object whose Enqueue returned before StopBatchWriter was invoked never got its BatchWriteDone")
 			v, err := store.Get([]byte{o.id})
 			verifrt.Assert(err == nil && len(v) == 1 && int32(v[0]) == o.version.Load(), "committed store contents differ from the last BatchWrite of the object")
 			verifrt.Assert(o.dones == o.writes, "BatchWriteDone was not called once per scheduling before StopBatchWriter returned")
 			verifrt.Assert(int64(o.lastDone) < stopReturned.Load(), "StopBatchWriter returned before an enqueued object was completely written")
+			if stop2Invoked.Load() != 0 {
+				verifrt.Assert(int64(o.lastDone) < stop2Returned.Load(), "a concurrent second StopBatchWriter returned before an enqueued object was completely written")
+			}
 		}
 		verifrt.Assert(o.doneAfter, "BatchWriteDone was called before the object's mutations were committed")
 		verifrt.Assert(o.dones <= o.writes, "BatchWriteDone called more often than BatchWrite")
@@ -110,7 +130,7 @@ func H_C08_enqueue_stop() {
 //verif:h prop=C08 p.sizes=1/1 preempt=1/2 cover=done p.maxfires=1/1 runs=30000000 timeout=280/3000 steps=400000
 func H_C08_quiesce() {
 	store := NewMapDB()
-	queueSize := 1 + verifrt.Choose("queueSize", verifrt.Param("sizes", 1))
+	queueSize := verifrt.Choose("queueSize", 1+verifrt.Param("sizes", 1)) // 0 (unbuffered) .. sizes
 	bw := kvstore.NewBatchedWriter(store, kvstore.WithQueueSize(queueSize), kvstore.WithBatchSize(1), kvstore.WithBatchTimeout(time.Second))
 	objs := []*c08Obj{{id: 1, store: store, doneAfter: true}, {id: 2, store: store, doneAfter: true}}
 	var wg sync.WaitGroup
@@ -143,4 +163,31 @@ func H_C08_quiesce() {
 			verifrt.Assert(err != nil, "an object that was never passed to BatchWrite is in the store")
 		}
 	}
+}
+
+// H_C08_reenqueue: one object is modified and enqueued again by a second goroutine while the writer may be in
+// the middle of writing it: the committed contents are those of the last Enqueue that returned before Stop.
+//
+//verif:h prop=C08 preempt=1/2 cover=done p.maxfires=1/1 runs=30000000 timeout=280/3000 steps=400000
+func H_C08_reenqueue() {
+	store := NewMapDB()
+	bw := kvstore.NewBatchedWriter(store, kvstore.WithQueueSize(2), kvstore.WithBatchSize(1+verifrt.Choose("batchSize", 2)), kvstore.WithBatchTimeout(time.Second))
+	o := &c08Obj{id: 1, store: store, doneAfter: true}
+	var wg sync.WaitGroup
+	wg.Add(2)
+	for k := 0; k < 2; k++ {
+		go func() {
+			defer wg.Done()
+			verifrt.MustFinish()
+			o.version.Add(1)
+			bw.Enqueue(o)
+		}()
+	}
+	verifrt.MustFinish()
+	wg.Wait()
+	bw.StopBatchWriter()
+	verifrt.Cover("done")
+	v, err := store.Get([]byte{o.id})
+	verifrt.Assert(err == nil && len(v) == 1 && int32(v[0]) == o.version.Load(), "the committed contents are not those of the object at its last Enqueue (a re-enqueue during the write was dropped)")
+	verifrt.Assert(o.dones == o.writes && o.doneAfter, "BatchWriteDone does not follow every committed BatchWrite")
 }
